@@ -494,6 +494,7 @@ impl<'a, 'tcx> Cx<'a, 'tcx> {
         let tcx = self.tcx;
         let (alloc_id, offset, count): (mir::interpret::AllocId, usize, Option<u64>) = match cv {
             mir::ConstValue::Indirect { alloc_id, offset } if !is_ref => (alloc_id, offset.bytes() as usize, n),
+            mir::ConstValue::Indirect { alloc_id, offset } if is_ref => self.deref_stored_ref(alloc_id, offset.bytes() as usize, n)?,
             mir::ConstValue::Slice { alloc_id, meta } if is_ref => (alloc_id, 0, Some(meta)),
             mir::ConstValue::Scalar(mir::interpret::Scalar::Ptr(ptr, _)) if is_ref => {
                 let (prov, off) = ptr.into_raw_parts();
@@ -528,6 +529,29 @@ impl<'a, 'tcx> Cx<'a, 'tcx> {
             }
             _ => None,
         }
+    }
+
+    /// a reference held in memory (`&[T]` = pointer + length, `&[T; N]` = pointer): where it points and how many elements
+    fn deref_stored_ref(&self, alloc_id: mir::interpret::AllocId, off: usize, n: Option<u64>) -> Option<(mir::interpret::AllocId, usize, Option<u64>)> {
+        let tcx = self.tcx;
+        let a = self.alloc_of(alloc_id)?;
+        let inner = a.inner();
+        let psize = tcx.data_layout.pointer_size().bytes() as usize;
+        let want = if n.is_some() { psize } else { 2 * psize };
+        if off + want > inner.len() {
+            return None;
+        }
+        let prov = inner.provenance().get_ptr(rustc_abi::Size::from_bytes(off as u64))?;
+        let bytes = inner.inspect_with_uninit_and_ptr_outside_interpreter(off..off + want);
+        let mut addr: u64 = 0;
+        let mut len: u64 = 0;
+        for k in 0..psize {
+            addr |= (bytes[k] as u64) << (8 * k);
+            if n.is_none() {
+                len |= (bytes[psize + k] as u64) << (8 * k);
+            }
+        }
+        Some((prov.alloc_id(), addr as usize, Some(n.unwrap_or(len))))
     }
 
     fn alloc_of(&self, alloc_id: mir::interpret::AllocId) -> Option<mir::interpret::ConstAllocation<'tcx>> {
@@ -601,6 +625,36 @@ impl<'a, 'tcx> Cx<'a, 'tcx> {
                 }
                 Some(J::obj().set("struct", J::s(with_no_trimmed_paths!(tcx.def_path_str(adt.did())))).set("fields", J::Arr(items)))
             }
+            ty::Ref(_, inner_ty, _) if matches!(inner_ty.kind(), ty::Slice(_) | ty::Array(..)) => {
+                let (ety, n) = match inner_ty.kind() {
+                    ty::Slice(e) => (*e, None),
+                    ty::Array(e, n) => (*e, Some(n.try_to_target_usize(tcx)?)),
+                    _ => return None,
+                };
+                let prov = inner.provenance().get_ptr(rustc_abi::Size::from_bytes(off as u64))?;
+                let psize = tcx.data_layout.pointer_size().bytes() as usize;
+                let want = if n.is_some() { psize } else { 2 * psize };
+                let bytes = inner.inspect_with_uninit_and_ptr_outside_interpreter(off..off + want);
+                let mut addr: u64 = 0;
+                let mut len: u64 = 0;
+                for k in 0..psize {
+                    addr |= (bytes[k] as u64) << (8 * k);
+                    if n.is_none() {
+                        len |= (bytes[psize + k] as u64) << (8 * k);
+                    }
+                }
+                let count = n.unwrap_or(len) as usize;
+                if count > 8192 {
+                    return None;
+                }
+                let target = self.alloc_of(prov.alloc_id())?;
+                let es = tcx.layout_of(self.env.as_query_input(ety)).ok()?.size.bytes() as usize;
+                let mut items = Vec::new();
+                for i in 0..count {
+                    items.push(self.read_value(target, addr as usize + i * es, ety, depth + 1)?);
+                }
+                Some(J::obj().set("ref_arr", J::Arr(items)))
+            }
             ty::Ref(_, inner_ty, _) if inner_ty.is_str() => {
                 // fat pointer: (data pointer with provenance, length)
                 let psize = tcx.data_layout.pointer_size().bytes() as usize;
@@ -634,6 +688,7 @@ impl<'a, 'tcx> Cx<'a, 'tcx> {
         }
         let (alloc_id, offset, count): (mir::interpret::AllocId, usize, Option<u64>) = match cv {
             mir::ConstValue::Indirect { alloc_id, offset } if !is_ref => (alloc_id, offset.bytes() as usize, n),
+            mir::ConstValue::Indirect { alloc_id, offset } if is_ref => self.deref_stored_ref(alloc_id, offset.bytes() as usize, n)?,
             mir::ConstValue::Slice { alloc_id, meta } if is_ref => (alloc_id, 0, Some(meta)),
             mir::ConstValue::Scalar(mir::interpret::Scalar::Ptr(ptr, _)) if is_ref => {
                 let (prov, off) = ptr.into_raw_parts();
